@@ -695,3 +695,5 @@ def _run_connect_back(world: World, plan):
         break
     sig = ['cb', accept, plan['ports'], plan['prefer'], typ, len(pierces), len(cannots)]
     return common.finish(world, accept != 'fast', sig)
+
+INFO['rule'] += " Round-5 additions: indirect outcome pierce_edge - the pierce is released in the exact instant of the library's own deadline timer (read from the loop's schedule), swept over 0..6 loop iterations, +-1 ns and +-3 ulps; either outcome passes, nothing may be left behind."
